@@ -283,6 +283,20 @@ pub fn run(cx: &Ctx) {
         };
         cx.run_pt(&Paths, cx.by(1200, 12000), cx.workers.min(8), strat, "sequences of 0..700 observations (3/4 shorter than 60), up to 6 segments, every combination of paths");
     }
+    cx.label("long");
+    {
+        // collect()/extend() of more than 2^16 observations in one call (block-wise implementations differ from the add loop only here)
+        let mut r = Sm(cx.seed ^ 0xC20);
+        let mut cases = Vec::new();
+        for ty in ["Mean", "Variance", "Kurtosis", "Moments4", "Min", "WeightedMeanWithError", "Covariance"] {
+            for (n, cuts, paths) in [(70_000usize, vec![], vec![0u8]), (140_000, vec![], vec![1]), (70_003, vec![3], vec![1, 2]), (66_000, vec![66_000 / 2], vec![5, 8])] {
+                let vals: Vec<(f64, f64)> = (0..n).map(|_| (r.normal() * 3.0 + 0.1, (r.f() * 4.0).floor())).collect();
+                cases.push(Ingest { ty: ty.to_string(), vals, cuts, paths });
+            }
+        }
+        cx.run_list(&Paths, cases, "7 types x 4 long sequences (66000..140000 observations) collected / extended in one or two calls");
+    }
+    cx.label("generated");
     let strat = || (prop_oneof![3 => vec(super::c11::c01_value(), 0..80), 1 => vec(super::c11::c01_value(), 80..600)], 0u8..4).prop_map(|(xs, ctor)| Conc { xs, ctor });
     cx.run_pt(&Concat, cx.by(3000, 30000), cx.workers, strat, "sequences of 0..80 observations x 4 constructors x 4 concatenate! structs");
 }
